@@ -169,7 +169,9 @@ class C07(AntsSpec):
             if iv["end"] < dl:
                 allowed = [iv["pair"]] + ([("0", "DE")] if park1 else [])
             elif iv["end"] == dl:
-                allowed = [iv["pair"], ("0", "DE")]
+                # exact tie: either side may decide the attempt (a handler that returned because its ctx was
+                # cancelled, E999, can never be the winner)
+                allowed = ([iv["pair"]] if iv["pair"] != ("0", "E999") else []) + [("0", "DE")]
             else:
                 allowed = [("0", "DE")]
             last = pos == n - 1
